@@ -46,7 +46,7 @@ ASSUMPTIONS = [
 REQUIRED = ["roundtrips", "src_text", "src_bytes", "src_path", "offset_0", "offset_big",
             "rounding_tie_values", "comments_compared", "audit_file_opens", "rewrites_same_object",
             "trees_with_int64_ids", "same_path_rewritten_then_read",
-            "rejected_reads_before_roundtrip", "loaded_trees_saved_again",
+            "rejected_reads_before_roundtrip", "loaded_trees_saved_again", "size_sweep_cases",
             "tap_to_swc", "tap_parse_swc", "tap_reset_index_"]
 FLOOR = {"quick": 500, "thorough": 40000}
 SHARDS = {"quick": 8, "thorough": 16}
@@ -330,6 +330,14 @@ def run(ctx):
                 ctx.case(case, klass="real-morphology")
                 ctx.count("real_morphologies")
                 execute(ctx, case)
+        for j, rc in enumerate(G.sweep_recipes(ctx, large=1)):
+            # node counts on / next to powers of two and block sizes, and one big branched tree
+            case = {"tree": rc, "vclass": "plain", "vseed": 1, "cset": 1 + j % 3, "tsource": "",
+                    "writes": [{"offset": [0, 1, 1000][j % 3], "kind": ["text", "bytes", "path"][j % 3],
+                                "source": None, "comments": None}]}
+            ctx.case(case, klass="size-sweep")
+            ctx.count("size_sweep_cases")
+            execute(ctx, case)
         if ctx.shard == 0:
             for shape, n in (("chain", 10000 if ctx.quick else 100000), ("star", 200)):
                 rc = {"shape": shape, "n": n, "numbering": "sorted", "geom": "growth",
